@@ -72,7 +72,7 @@ def rich_world(seed, n_chroms=6, genes_per_chrom=3, groups=3, multimappers=True,
     rng = w.rng
     for ci in range(n_chroms):
         cname = "chr%d" % (ci + 1)
-        w.add_chrom(cname, 60000 + ci * 4321 + genes_per_chrom * 9000 + extra_len + (187000 if zoo else 0))
+        w.add_chrom(cname, 60000 + ci * 4321 + genes_per_chrom * 9000 + extra_len + (196000 if zoo else 0))
         pos = 1500
         for gi in range(genes_per_chrom):
             gid = "G%d_%d" % (ci + 1, gi + 1)
@@ -767,6 +767,32 @@ def noncanonical_novel_locus(w, gid, chrom, p):
     return g, p + 4400
 
 
+def two_genes_shared_introns_locus(w, gid, chrom, p, strand):
+    """Two annotated genes of one strand that share their first two introns (they differ in the last exon) and an unannotated isoform that uses
+    exactly those two introns plus a novel one: both genes have equal claims on the novel transcript."""
+    span = 5600
+
+    def m(a, b):
+        return (p + a, p + b) if strand == "+" else (p + span - b, p + span - a)
+
+    def exs(lst):
+        return sorted(m(a, b) for a, b in lst)
+    common = [(0, 300), (900, 1150), (1800, 2100)]
+    ga, gb = Gene(gid + "A", chrom, strand), Gene(gid + "B", chrom, strand)
+    ga.transcripts.append(Transcript(gid + "A.t1", gid + "A", chrom, strand, exs(common + [(2800, 3200)]), True, "shares-introns-with-another-gene"))
+    gb.transcripts.append(Transcript(gid + "B.t1", gid + "B", chrom, strand, exs(common + [(3700, 4100)]), True, "shares-introns-with-another-gene"))
+    ga.hidden.append(Transcript(gid + "A.h1", gid + "A", chrom, strand, exs(common + [(4600, 5000)]), False, "novel-claimed-by-two-genes"))
+    for t in ga.transcripts + gb.transcripts + ga.hidden:
+        for intr in t.introns:
+            w.plant_sites(chrom, intr, strand)
+    w.genes += [ga, gb]
+    tail = dict(polya=30) if strand == "+" else dict(polyt=30, flag=16)
+    for t, n in ((ga.transcripts[0], 5), (gb.transcripts[0], 5), (ga.hidden[0], 14)):
+        for _ in range(n):
+            w.make_read(chrom, list(t.exons), truth={"src": t.id, "class": "exact"}, **tail)
+    return [ga, gb], p + span
+
+
 def near_site_novel_locus(w, gid, chrom, p, strand):
     """t1 = e1..e5, t2 = e1-e3-e5 (annotated); the unannotated isoform e1-e2-e3-e5' is a new combination of annotated introns except
     that its last junction (first for '-') sits 3 bp away from the annotated site of t2's intron: that intron is unannotated, although it
@@ -839,7 +865,7 @@ def gene_valley_locus(w, gid, chrom, p, strand):
 
 ZOO_ALL = ("ambiguous_only", "twins", "contested", "intronic", "apa", "alt_terminal", "shifted_site", "shared_chain", "same_coords",
            "one_bp_exon", "lowmapq_two_exon", "mono_only", "gap_gene", "gene_valley", "odd_chroms",
-           "near_site_novel", "low_cov_novel", "two_exon_alt_polya", "dense_two_exon", "antisense_shared_exon", "micro_exon_sibling", "mixed_strand_gene", "two_cluster", "early_end_isoform", "noncanonical_novel")
+           "near_site_novel", "low_cov_novel", "two_exon_alt_polya", "dense_two_exon", "antisense_shared_exon", "micro_exon_sibling", "mixed_strand_gene", "two_cluster", "early_end_isoform", "noncanonical_novel", "two_genes_shared_introns")
 ZOO_NO_TIES = tuple(z for z in ZOO_ALL if z != "twins")
 
 
@@ -1010,6 +1036,9 @@ def add_zoo(w, parts=ZOO_ALL):
         if "noncanonical_novel" in parts and ci % 2 == 0 and room(8000):
             noncanonical_novel_locus(w, "ZNC" + tag, chrom, _free_pos(w, chrom, 3000))
             placed.add("noncanonical_novel")
+        if "two_genes_shared_introns" in parts and room(8500):
+            two_genes_shared_introns_locus(w, "ZTG" + tag, chrom, _free_pos(w, chrom), "+-"[ci % 2])
+            placed.add("two_genes_shared_introns")
         if "early_end_isoform" in parts and room(6500):
             early_end_isoform_locus(w, "ZEE" + tag, chrom, _free_pos(w, chrom), "+-"[ci % 2])
             placed.add("early_end_isoform")
